@@ -54,6 +54,7 @@ class G:
         self.sections = []       # group/repeat names
         self.repeats = []
         self.in_repeat_names = {}  # name -> innermost repeat name
+        self.repeat_parent = {}    # repeat name -> the repeat that encloses it
         self.langs = []
         self.lists = []
         self.ext_lists = []
@@ -211,6 +212,11 @@ class G:
         if self.P.get("p_instance_expr", 0) and self.lists and self.p("p_instance_expr"):
             ln = self.pick(self.lists)["name"]
             choices = [lambda: f"instance('{ln}')/root/item[name = {r()}]/label = {L}"]
+            if self.p("_", 0.4):
+                # predicates nest, and a string literal may hold a bracket
+                choices = [lambda: f"instance('{ln}')/root/item[name = instance('{ln}')/root/item[name = {r()}]/name and label != {r()}]/label = {L}",
+                           lambda: f"instance('{ln}')/root/item[name != ']' and label = {r()}]/label = {L}",
+                           lambda: f"instance('{ln}')/root/item[name = {r()}][label != {r()}]/label = {L}"]
         if self.P.get("p_indexed", 0) and self.p("p_indexed"):
             inrep = [n for n in nm if n in self.in_repeat_names]
             if inrep:
@@ -219,7 +225,15 @@ class G:
                 choices = [lambda: f"indexed-repeat(${{{t}}}, ${{{rp}}}, 1) = {L}",
                            # references before, between and after several calls
                            lambda: f"indexed-repeat(${{{t}}}, ${{{rp}}}, 1) + {r()} > indexed-repeat(${{{t}}}, ${{{rp}}}, 2) or {L}",
-                           lambda: f"{r()} = {L} or indexed-repeat(${{{t}}}, ${{{rp}}}, 1) + {r()} + indexed-repeat(${{{t}}}, ${{{rp}}}, 2) + {r()} > 3"]
+                           lambda: f"{r()} = {L} or indexed-repeat(${{{t}}}, ${{{rp}}}, 1) + {r()} + indexed-repeat(${{{t}}}, ${{{rp}}}, 2) + {r()} > 3",
+                           # an index argument with parentheses of its own
+                           lambda: f"indexed-repeat(${{{t}}}, ${{{rp}}}, count(${{{rp}}}) - (1)) = {L} or {r()} = ''"]
+                outer = self.repeat_parent.get(rp)
+                if outer:
+                    # nested repeats: the five-argument form; index arguments may be calls, or mention the same names again
+                    choices += [lambda: f"indexed-repeat(${{{t}}}, ${{{outer}}}, position(../..), ${{{rp}}}, 1) = {L}",
+                                lambda: f"indexed-repeat(${{{t}}}, ${{{outer}}}, (1), ${{{rp}}}, count(${{{rp}}})) = {L} or {r()} = ''",
+                                lambda: f"indexed-repeat(${{{t}}}, ${{{outer}}}, 1, ${{{rp}}}, 2) = {L}"]
         return self.pick(choices)()
 
     def calc(self):
@@ -564,6 +578,8 @@ class G:
                 c["instance::" + self.pick(["custom", "odk:tag"])] = self.text("I")
             node = {"k": kind, "c": c, "ch": []}
             (self.repeats if kind == "r" else self.sections).append(nm)
+            if kind == "r" and inside_repeat:
+                self.repeat_parent[nm] = inside_repeat
             if kind == "r":
                 # the repeat itself is a valid ${} target
                 pass
